@@ -391,7 +391,7 @@ def program_specs(tier, seed):
     quick = tier == "quick"
     rnd = random.Random(seed)
     specs = []
-    to = 30 if quick else 200
+    to = 30 if quick else 90
     combos = []
     for bi, body in enumerate(C01_BODIES):
         for cname, ctx in C01_CONTEXTS.items():
@@ -406,14 +406,16 @@ def program_specs(tier, seed):
         rnd.shuffle(rest)
         chosen += rest[:12]
     else:
-        chosen = combos
+        # thorough: every body in every context under the default and the all-flipped option set (the other six option sets are
+        # covered by the seeded sample of the quick tier over time)
+        chosen = [c for c in combos if c[4] in ((False, True, True), (True, False, False))]
     for bi, body, cname, ctx, o in chosen:
         src = ctx.replace("BODY", body)
         oname = "".join("T" if x else "F" for x in o)
         specs.append(mk_spec("C01", f"prog{bi:02d}/{cname}/opts={oname}", src, o, to, check_trace=False))
     # generated programs (seeded): the corpus above is fixed, these change with VERIF_SEED / --seed
     from .c01_gen import generate
-    gens = generate(seed, 40 if quick else 200)
+    gens = generate(seed, 40 if quick else 120)
     for gi, (gname, gsrc, feats) in enumerate(gens):
         for o in ([OPTS[(3 + gi) % 8]] if quick else [(False, True, True), (True, False, False)]):
             oname = "".join("T" if x else "F" for x in o)
